@@ -347,6 +347,12 @@ def c_checked(ex, st, key, argv, dest_ty, raw):
             Case(z3.Not(ovf), lambda ex, st, a: ex.make_enum(dest_ty, "Some", [cases_for(ex, st, a[0], a[1])[1]]))]
 
 
+def c_option_ok_or(ex, st, key, argv, dest_ty, raw):
+    o = argv[0]
+    return enum_cases(ex, st, o, {"Some": lambda ex, st, a: ex.make_enum(dest_ty, "Ok", [payload(ex, a[0], "Some", 0, payload_type(dest_ty, "Ok"))]),
+                                  "None": lambda ex, st, a: ex.make_enum(dest_ty, "Err", [a[1]])})
+
+
 def c_saturating_add(ex, st, key, argv, dest_ty, raw):
     def ap(ex, st, a):
         x, y = a[0], a[1]
@@ -366,6 +372,7 @@ def std_contracts():
         (r"^(usize|u64|u32|u8|bool) as Partial(Ord|Eq)::(lt|le|gt|ge|eq|ne)$", c_int_cmp),
         (r"^Option::get_or_insert$|^Option::insert$", c_option_get_or_insert),
         (r"^Option::or$", c_option_or),
+        (r"^Option::ok_or$", c_option_ok_or),
         (r"^(VarInt|StreamId|PushId|SessionId|T) as (From|Into)::(from|into)$", c_newtype_conv),
         (r"^(VarInt|StreamId|PushId|T) as Partial(Ord|Eq)::(lt|le|gt|ge|eq|ne)$", c_newtype_cmp),
         (r"^core::fmt::rt::Argument::new_|^Argument::new_|^Arguments::new|^format$|^core::fmt::rt::Argument", c_opaque),
